@@ -72,6 +72,16 @@ def generate(rng, tier):
                        ("2 weeks + 3 days", 17 * 86400), ("1 hour - 3 hours + 4 hours", 2 * 3600)):
         cases.append(exec_case(text, "en", pre=[rule, {"op": "delete_rule", "lang": "en", "name": "greeting"}],
                                kind="pinned-after-rule-history", expect=secs, out=render(secs, "en")))
+    # durations held in variables and written side by side add up, every operand included (two to six operands)
+    vals = [("a", "1 year", LEN["year"]), ("b", "2 months", 2 * LEN["month"]), ("c", "3 weeks", 3 * LEN["week"]), ("d", "4 days", 4 * 86400),
+            ("e", "5 hours", 5 * 3600), ("f", "6 minutes", 360)]
+    for k in (2, 3, 4, 5, 6):
+        defs = "\n".join("%s = %s" % (n, t) for n, t, _ in vals[:k])
+        names = " ".join(n for n, _, _ in vals[:k])
+        tot = sum(s_ for _, _, s_ in vals[:k])
+        cases.append(exec_case(defs + "\n" + names, "en", kind="variables-side-by-side", expect=tot, out=render(tot, "en"), lastline=True))
+        cases.append(exec_case(defs + "\ntotal = " + names + "\ntotal 7 seconds", "en", kind="variables-side-by-side", expect=tot + 7,
+                               out=render(tot + 7, "en"), lastline=True))
     for text, secs in (("257 yıl", 257 * LEN["year"]), ("1 yıl", LEN["year"])):
         cases.append(exec_case(text, "tr", kind="pinned-tr", expect=secs, out=render(secs, "tr")))
     while len(cases) < n:
@@ -141,6 +151,8 @@ def spec_check(c, rec, header):
     lines = last_lines(rec)
     if lines is None:
         return "evaluation panicked or hung"
+    if c["meta"].get("lastline") and lines:
+        lines = lines[-1:]               # earlier lines bind variables
     if len(lines) != 1 or lines[0] is None:
         return "expected one duration result, got %r" % (lines,)
     k, v = line_value(lines[0])
